@@ -226,6 +226,40 @@ def check(run):
                 rd = (int.from_bytes(b[:4], "little") >> 7) & 31
                 execs.append(f"x {xlen} {rd} {sx(pc, 64)} x{b.hex()}")
                 meta.append((it, xlen, v, pc, {"stream": "dyn", "case": cases[idx], "values": [v]}, "runtime"))
+    # ---------------------------------------------------------------- 2b. immediates written as constant EXPRESSIONS (casts, parentheses, signs):
+    # the value is what rustc computes for the expression, never the digits of the literal inside it. The spellings are chosen so that the
+    # number inside and the value of the expression both fit the 12-bit variants: a front end that takes the digits assembles another value
+    def cast_spellings(ty):
+        return [(f"0x7FFu16 as u8 as {ty}", 0xFF), (f"0x1FFi32 as i8 as {ty}", -1), (f"(0x7F0u16 as i8) as {ty}", -16), (f"-(0x7FEu16 as u8 as {ty})", -0xFE),
+                (f"(300i32 as u8) as {ty}", 44), (f"0x123 as {ty}", 0x123), (f"-(5 as {ty})", -5)]
+    ecases, emeta = [], []
+    for it in items:
+        for xlen in (64, 32):
+            if not it["isa"] & (2 if xlen == 64 else 1):
+                continue
+            ty = "i64" if it["check"][0] == "BigImm" else "i32"
+            for text, val in cast_spellings(ty):
+                emeta.append((it, xlen, val, text))
+                ecases.append(dict(body=header(it, xlen) + " " + syntax(it, text), vars=[]))
+    ok_e, log_e, dropped = dyn.build_tolerant("C15E", ecases)
+    if not ok_e:
+        run.violation("broken-correspondence", {"kind": "harness-build", "harness": "dyn-expr"}, "the generated crate with constant-expression immediates does not build against the working tree",
+                      {"log": log_e[-3000:]}, found_input=False)
+    else:
+        stats["literal_expression"] = 0
+        for k, ((it, xlen, val, text), (st, b)) in enumerate(zip(emeta, dyn.run("C15E", [(k, []) for k in range(len(ecases))]))):
+            stats["literal_expression"] += 1
+            if k in dropped or st != "ok":
+                # every value fits every variant (|v| < 2048, even offsets are not required by these forms?) — a refusal is judged against the plain literal
+                if lit_ok.get((it["m"], it["i"], xlen, val)) or -2048 <= val <= 2047 and it["is_li"]:
+                    run.violation("failing-input", {"kind": "expression-immediate-refused", "mnemonic": it["m"], "form": it["i"], "text": text},
+                                  f"dynasm!(ops {ecases[k]['body']}) {'does not compile' if k in dropped else 'panics'} although the expression evaluates to {val}, which this form accepts",
+                                  {"stream": "dyn", "case": ecases[k], "values": []})
+                continue
+            for pc in (pcs[:2] if not it["is_li"] else pcs[:1]):
+                rd = (int.from_bytes(b[:4], "little") >> 7) & 31
+                execs.append(f"x {xlen} {rd} {sx(pc, 64)} x{b.hex()}")
+                meta.append((it, xlen, val, pc, {"stream": "dyn", "case": ecases[k], "values": []}, "literal-expression"))
     # ---------------------------------------------------------------- 3. labels: the emitted template patched by write_value
     lab = []
     for it in items:
